@@ -27,6 +27,16 @@ def run(ctx):
         ex2 = ctx.rng.sample(ex2, 600 if q else 20000)
     cases = [{"kind": "placeat" if f.get("placeat") else "fill", "meter": f["meter"], "v": f["v"], "n": f["n"], "acts": []} for f in fills]
     cases += [{"kind": "hist", "meter": h["meter"], "acts": h["acts"]} for h in hists + ex2 + walks]
+    # a bar switched to the unbounded (0,0) meter after it had a bounded one takes any number of entries; and back
+    q4 = {"op": "place_notes", "v": {"b": 4, "d": 0, "r": [1, 1]}, "arg": {"rest": False, "items": [{"t": "bare", "n": ["C"], "o": 0}]}}
+    for m in ([2, 4], [4, 4], [3, 8], [6, 8]):
+        for pre in (0, 1):
+            cases.append({"kind": "hist", "meter": m, "acts": [q4] * pre + [{"op": "set_meter", "count": 0, "unit": 0}] + [q4] * 6 +
+                          [{"op": "set_meter", "count": m[0], "unit": m[1]}, q4]})
+    # notes added to the entry that sounds at a beat, the beat given as a whole number (1 and 2 are beats, not positions)
+    for nq in (5, 6, 9):
+        for beat in (1, 2):
+            cases.append({"kind": "hist", "meter": [0, 0], "acts": [q4] * nq + [{"op": "place_at_beat", "beat": beat, "arg": {"rest": False, "items": [{"t": "pair", "n": ["E"], "o": 5}]}}]})
     # systematic near-overflow fills: the last value is too long (or leaves room) by less than a thousandth of a whole note
     near = ctx.gen("Gen_C13N", "Gen_C13N.cfg")
     if q and len(near) > 700:
